@@ -20,7 +20,7 @@ struct _shim_N_Vector { realtype *data; sunindextype length; int own; };
 typedef struct _shim_N_Vector *N_Vector;
 
 struct _shim_SUNMatrix {
-    int sparse; sunindextype M, N, NNZ;
+    int sparse; int sparsetype; sunindextype M, N, NNZ;     // sparsetype: CSR_MAT / CSC_MAT as given to SUNSparseMatrix
     realtype *data;          // dense: column-major M*N ; sparse: NNZ values
     sunindextype *indexptrs; // sparse: M+1
     sunindextype *indexvals; // sparse: NNZ
